@@ -16,6 +16,12 @@ cl = emit.cl
 
 
 def gen_case(rng):
+    if rng.random() < 0.3:
+        # stragglers: many workers, one or two of them slow, brackets with >= 3 rounds, few score ties: a round is partly filled
+        # while its members have already finished, and better trials join it later
+        cfg = dict(max_epochs=rng.choice([8, 9, 16, 27]), factor=rng.choice([2, 3]), iters=1, max_retries=rng.choice([0, 0, 1]), max_consec=50, mx=rng.random() < 0.5,
+                   slow=rng.sample(range(8), rng.randint(1, 2)), wide=True)
+        return cfg, rng.randint(5, 8), rng.randint(150, 320), rng.randint(0, 2 ** 31)
     cfg = dict(max_epochs=rng.choice([1, 2, 3, 4, 5, 8, 9, 10, 27]), factor=rng.choice([2, 3, 4]), iters=rng.choice([1, 1, 2]),
                max_retries=rng.choice([0, 0, 1]), max_consec=rng.choice([2, 3, 50]), mx=rng.random() < 0.5)
     return cfg, rng.randint(1, 4), rng.randint(10, 90), rng.randint(0, 2 ** 31)
@@ -94,10 +100,11 @@ def run_case(cfg, W, nsteps, seed):
             return None
         for _ in range(nsteps):
             w = rng.randrange(W); tn = "w%d" % w
-            if tn in held and rng.random() < 0.8:
+            if tn in held and rng.random() < (0.8 if w not in cfg.get("slow", ()) else 0.07):
                 t = held.pop(tn); r = rng.random()
+                if cfg.get("wide"): r *= 0.8
                 if r < 0.7:
-                    sc = float(rng.randint(-3, 3)); o.update_trial(t.trial_id, {"score": sc}); t.status = "COMPLETED"; oc = ("C", int(sc))
+                    sc = float(rng.randint(-3, 3) if not cfg.get("wide") else rng.randint(-40, 40)); o.update_trial(t.trial_id, {"score": sc}); t.status = "COMPLETED"; oc = ("C", int(sc))
                 elif r < 0.75:
                     o.update_trial(t.trial_id, {"score": float("nan")}); t.status = "COMPLETED"; oc = ("N",)
                 elif r < 0.88: t.status = "INVALID"; oc = ("I",)
